@@ -509,14 +509,6 @@ theorem C16_language_and_reserved_globals_installed_last (cfg : EnvCfg) (allow :
     · simp [h1]
     · by_cases h2 : nowUtc = n <;> simp [h1, h2]
 
-/-- Why the order matters (counterfactual, seeded change C16-3): were the language globals installed with
-`setdefault` instead of an overwrite, the user's value would stay in force without any error. -/
-example :
-    let tn := "typename_unsigned_length".toList
-    cget (setAll [(tn, Owner.user 0)] [(tn, Owner.lang)]) tn = some .lang ∧
-    cget (setDefaultAll [(tn, Owner.user 0)] [(tn, Owner.lang)]) tn = some (.user 0) := by
-  decide
-
 def exCfg₁ : EnvCfg where
   jinjaFilters := []
   jinjaTests := []
@@ -527,6 +519,86 @@ def exCfg₁ : EnvCfg where
   preFilters := []
   preTests := []
   post := []
+
+/-- T5 (what the allow flag does): whatever the flag, a construction that does not raise is plain item assignment in
+installation order — filters/tests: Jinja defaults, language support, the USER's, then instance tests and the
+generator's own; globals: Jinja defaults, the USER's (none of them reserved), then reserved namespaces, `now_utc`
+and the language globals.  The flag only decides whether a collision raises. -/
+theorem C16_constructed_environment_is_installation_order (cfg : EnvCfg) (allow : Bool)
+    (ug uf ut : List (Name × Owner)) (env : Env) (h : construct cfg allow ug uf ut = .ok env) :
+    env.filters = setAll cfg.jinjaFilters (cfg.preFilters ++ conv uf ++ postOf .filter cfg.post) ∧
+    env.tests = setAll cfg.jinjaTests (cfg.preTests ++ conv ut ++ postOf .test cfg.post) ∧
+    env.globals = builtinGlobals cfg (setAll cfg.jinjaGlobals ug) ∧
+    ∀ e ∈ ug, e.1 ∉ cfg.reservedNs ++ cfg.reservedNames := by
+  unfold construct at h
+  cases hg : addGlobals (cfg.reservedNs ++ cfg.reservedNames) allow cfg.jinjaGlobals ug with
+  | error x => simp [hg] at h
+  | ok g =>
+    simp only [hg] at h
+    obtain ⟨hg1, hg2⟩ := addGlobals_ok _ allow ug _ _ hg
+    have hglob := constructRest_globals cfg allow g uf ut env h
+    unfold constructRest at h
+    cases hf1 : addAll allow cfg.jinjaFilters cfg.preFilters with
+    | error x => simp [hf1] at h
+    | ok f1 =>
+      cases ht1 : addAll allow cfg.jinjaTests cfg.preTests with
+      | error x => simp [hf1, ht1] at h
+      | ok t1 =>
+        simp only [hf1, ht1] at h
+        cases hf2 : addAll allow f1 (conv uf) with
+        | error x => simp [hf2] at h
+        | ok f2 =>
+          cases ht2 : addAll allow t1 (conv ut) with
+          | error x => simp [hf2, ht2] at h
+          | ok t2 =>
+            simp only [hf2, ht2] at h
+            obtain ⟨pF, pT, _⟩ := addPost_ok allow cfg.post _ _ h
+            simp only at pF pT
+            refine ⟨?_, ?_, ?_, hg2⟩
+            · rw [addAll_ok allow _ _ _ pF, addAll_ok allow _ _ _ hf2, addAll_ok allow _ _ _ hf1,
+                setAll_append, setAll_append]
+            · rw [addAll_ok allow _ _ _ pT, addAll_ok allow _ _ _ ht2, addAll_ok allow _ _ _ ht1,
+                setAll_append, setAll_append]
+            · rw [hglob, hg1]
+
+/-- T5 (scope of the allow flag).  With the flag ON the user's item may replace only what was installed BEFORE it:
+Jinja's default globals, filters and tests and the language-support filters/tests.  It may NOT touch
+ * reserved globals: a reserved name among the additional globals raises whatever the flag
+   (`C16_reserved_global_raises`), and the reserved namespaces, `now_utc` and the target language's globals hold
+   their built-in value in every constructed environment (`C16_language_and_reserved_globals_installed_last`);
+ * anything installed after it: at the name of an instance test or of one of the generator's own filters/tests
+   the constructed environment holds the built-in item (it replaced the user's). -/
+theorem C16_allow_flag_scope (cfg : EnvCfg) (allow : Bool) (ug uf ut : List (Name × Owner)) (env : Env)
+    (h : construct cfg allow ug uf ut = .ok env) (n : Name) :
+    (∀ v, lastOf (postOf .filter cfg.post) n = some v → cget env.filters n = some v) ∧
+    (∀ v, lastOf (postOf .test cfg.post) n = some v → cget env.tests n = some v) ∧
+    (∀ v, lastOf cfg.langGlobals n = some v → cget env.globals n = some v) ∧
+    (lastOf cfg.langGlobals n = none → (n = nowUtc ∨ n ∈ cfg.reservedNs) → cget env.globals n = some .reserved) ∧
+    (∀ e ∈ ug, e.1 ∉ cfg.reservedNs ++ cfg.reservedNames) := by
+  obtain ⟨hF, hT, _, hR⟩ := C16_constructed_environment_is_installation_order cfg allow ug uf ut env h
+  obtain ⟨hL, hRes⟩ := C16_language_and_reserved_globals_installed_last cfg allow ug uf ut env (Or.inl h) n
+  refine ⟨?_, ?_, hL, hRes, hR⟩
+  · intro v hv
+    rw [hF, cget_setAll, lastOf_append, hv]
+  · intro v hv
+    rw [hT, cget_setAll, lastOf_append, hv]
+
+/-- Why the explicit reserved-name check matters (counterfactual, seeded change C16-5): were reserved names left to
+the generic "already defined" check of `_add_to_environment`, the allow flag would let the user's value in. -/
+example :
+    (addToEnv true [(nowUtc, Owner.reserved)] nowUtc (.user 0)).toOption.bind (cget · nowUtc) = some (.user 0) ∧
+    (match construct exCfg₁ true [(nowUtc, .user 0)] [] [] with
+      | .error (.reservedGlobal _) => true
+      | _ => false) = true := by
+  decide
+
+/-- Why the order matters (counterfactual, seeded change C16-3): were the language globals installed with
+`setdefault` instead of an overwrite, the user's value would stay in force without any error. -/
+example :
+    let tn := "typename_unsigned_length".toList
+    cget (setAll [(tn, Owner.user 0)] [(tn, Owner.lang)]) tn = some .lang ∧
+    cget (setDefaultAll [(tn, Owner.user 0)] [(tn, Owner.lang)]) tn = some (.user 0) := by
+  decide
 
 /-- Before the repair: the user's `range` silently replaced Jinja's (no error, the user's value is what
 templates see); the repaired constructor raises. -/
